@@ -63,5 +63,7 @@ Next == \E g \in Gs : Step(g)
 Spec == Init /\ [][Next]_vars
 
 Conflict(a, b) == a.loc = b.loc /\ "w" \in {a.kind, b.kind} /\ (a.lock = NoLock \/ a.lock # b.lock)
+\* (the hypothesis of SharingProof.tla: positions are positions)
+PosOK == pos \in [Gs -> Nat \ {0}]
 NoConflict == \A g, h \in Gs : (g # h /\ Active(g) /\ Active(h)) => ~Conflict(Cur(g), Cur(h))
 =============================================================================
